@@ -118,8 +118,8 @@ pub fn conjure<'gc>(p: *const String) -> Gc<'gc, String> {
 }
 
 
-def check_sat(prop, tier):
-    t0 = time.time()
+def sat_collect(prop):
+    """Run one satellite (model -> grid -> execution -> trace validation); returns its violations and records."""
     sp = SAT_SPECS[prop]
     skey = gcv._hash_paths([os.path.join(SPEC, f) for f in sp["files"]] + [os.path.join(ROOT, "runner", "engines_sat.py")])[:16]
     model, md = memo("sat-" + sp["kind"], skey, lambda d: sat_model(prop, d))
@@ -168,6 +168,13 @@ def check_sat(prop, tier):
             probes[name] = {"accepted": ok, "expected_accepted": expect_ok}
             if ok != expect_ok:
                 viols.append({"rule": "conjure:" + name, "index": 0, "diag": diag[-400:]})
+    return {"sp": sp, "viols": viols, "recs": recs, "model": model, "probes": probes, "v": v}
+
+
+def check_sat(prop, tier):
+    t0 = time.time()
+    sc = sat_collect(prop)
+    sp, viols, recs, model, probes, v = sc["sp"], sc["viols"], sc["recs"], sc["model"], sc["probes"], sc["v"]
     new = 0
     os.makedirs(os.path.join(WORK, "replays"), exist_ok=True)
     for x in viols[:6]:
@@ -199,7 +206,7 @@ def check_sat(prop, tier):
 
 def replay_sat(rec):
     """Re-run one recorded satellite counterexample."""
-    prop = rec["property"]
+    prop = rec.get("sat_property", rec["property"])
     sp = SAT_SPECS[prop]
     d = os.path.join(WORK, "replay-one")
     os.makedirs(d, exist_ok=True)
